@@ -14,6 +14,7 @@
 #include "cmd_listing.h"
 #include "cmd_macro.h"
 #include "cmd_link.h"
+#include "cmd_reader.h"
 
 static void register_all()
 {
@@ -31,4 +32,5 @@ static void register_all()
   register_listing();
   register_macro();
   register_link();
+  register_reader();
 }
